@@ -225,4 +225,7 @@ def obligations(ctx: Ctx):
 
     obs.append(Ob(f"{P}.P7.brace", "P", "brace repair of octave_write(lenient): the protected-range lookup answers 'inside some protected range' exactly, so text inside a literal zone is never rewritten (contract shared with C07.P9)", ["octave_mcp.mcp.write:WriteTool._repair_curly_brace_annotations"], _C07.ob_protected_lookup))
     obs.append(Ob(f"{P}.B2.brace", "B", "octave_write(lenient) on documents with brace forms inside literal zones (after strings / comments, inside longer fences holding shorter backtick runs): zone bytes unchanged, no receipt", ["octave_mcp.mcp.write:WriteTool._repair_curly_brace_annotations"], _C07b.ob_b3))
+    from props import lexical as _LX
+
+    obs.append(Ob(f"{P}.F4.frontmatter", "F", "frontmatter stripping cuts and glues on the same literal newline: zone content behind frontmatter (CR, FF, U+2028 ...) passes through byte for byte", ["octave_mcp.core.parser:_strip_yaml_frontmatter"], _LX.ob_frontmatter_split_join))
     return obs
